@@ -135,6 +135,37 @@ pub fn run_one(scn: &Scenario, idx: u64, sim: Sim) -> RunEnd {
     }
 }
 
+thread_local! {
+    /// the run this thread is executing: (scenario, run index, its simulator)
+    static CURRENT_RUN: RefCell<Option<(String, u64, Sim)>> = const { RefCell::new(None) };
+}
+
+/// For conditions that would otherwise *abort* the process before the run can end (an absurd
+/// allocation request aborts, it does not unwind): write a replay file from the decisions made so
+/// far, print the VIOLATION line and exit 1. Replaying that file meets the same condition again.
+pub fn emergency_violation(class: &str, detail: &str) -> ! {
+    let cur = CURRENT_RUN.with(|c| c.try_borrow().ok().and_then(|c| c.clone()));
+    let prop = CUR_PROP.with(|c| c.try_borrow().map(|c| c.clone()).unwrap_or_default());
+    let (scn, idx, tape) = match cur {
+        Some((scn, idx, sim)) => (scn, idx, sim.tape_so_far().unwrap_or_default()),
+        None => (String::new(), 0, vec![]),
+    };
+    let dir = format!("{}/replays", std::env::var("VERIF_OUT_DIR").unwrap_or_else(|_| verif_root()));
+    let _ = std::fs::create_dir_all(&dir);
+    let path = format!("{dir}/{prop}-emergency-{scn}-{idx}.json");
+    let doc = json!({
+        "property": prop, "scenario": scn, "run_index": idx, "class": class, "detail": detail, "tape": tape,
+        "emergency": "written while the run was still going: the condition would have aborted the process; not minimised",
+        "trace_hash": "n/a", "repo_rev": std::env::var("VERIF_REPO_REV").unwrap_or_default(),
+    });
+    let _ = std::fs::write(&path, serde_json::to_string_pretty(&doc).unwrap_or_default());
+    println!("  violation class={class} scenario={scn} first_idx={idx} : {detail}");
+    println!("VIOLATION property={prop} replay={path}");
+    use std::io::Write;
+    let _ = std::io::stdout().flush();
+    std::process::exit(1);
+}
+
 static RUN_PRELUDE: std::sync::OnceLock<fn()> = std::sync::OnceLock::new();
 
 /// A function called on the worker thread before every run: per-thread configuration a harness
@@ -150,6 +181,7 @@ fn run_one_unfiltered(scn: &Scenario, idx: u64, sim: Sim) -> RunEnd {
     if let Some(f) = RUN_PRELUDE.get() {
         f();
     }
+    CURRENT_RUN.with(|c| *c.borrow_mut() = Some((scn.name.to_string(), idx, sim.clone())));
     let s2 = sim.clone();
     let r = catch_unwind(AssertUnwindSafe(|| (scn.run)(&s2, idx)));
     match r {
